@@ -58,12 +58,22 @@ def make_cases(tier, seed, n_random=None, maxlen=None):
             if variant:
                 cases.append(dict(name=name, g=g, sr=sr, rename=["tuple", "rev"][i % 2],
                                   order=common.perm(len(g.rules), rng), maxlen=bound(tier, g, maxlen), part="all"))
+        if i < 45 or (tier != "quick" and i % 6 == 0):
+            # token-id vocabulary: terminals are the integers 0, 1, 2 (0 is falsy but is NOT epsilon) - strengthened after the
+            # independently seeded change C03-2
+            cases.append(dict(name=name + "#ids", g=_int_terminals(g), sr=srs[i % len(srs)], rename="id", order=None,
+                              maxlen=bound(tier, g, maxlen), part="all"))
         if name in MAXPLUS_CORPUS or (tier != "quick" and name.startswith("rand") and n_mp < 40):
             n_mp += name.startswith("rand")
             # small units of work: a case that runs into the per-case timeout is reported undecided
             for part in ("prefix", "derivs"):
                 cases.append(dict(name=name, g=g, sr="MaxPlus", rename="id", order=None, maxlen=2, part=part))
     return cases
+
+
+def _int_terminals(g):
+    ids = {a: k for k, a in enumerate(sorted(g.V))}
+    return type(g)(g.S, frozenset(ids.values()), [(w, h, tuple(ids.get(y, y) for y in b)) for w, h, b in g.rules])
 
 
 def _to_spec(cfg, sr):
